@@ -20,9 +20,11 @@ Definition phout_dest (destination : list N) : dest :=
   match destination with [] => DStream | _ :: _ => DFile end.
 
 (* encoder aggregators (jsonlines, ...): the `sink` of the configuration *)
-Inductive sink_conf := SinkFile (path : list N) | SinkStdout | SinkStderr.
+Inductive sink_conf :=
+| SinkFile (path : list N) | SinkStdout | SinkStderr
+| SinkBuffer.   (* datasink.NewBuffer(): a bytes.Buffer that is appended to and never closed *)
 Definition sink_dest (c : sink_conf) : dest :=
-  match c with SinkFile _ => DFile | SinkStdout | SinkStderr => DStream end.
+  match c with SinkFile _ => DFile | SinkStdout | SinkStderr | SinkBuffer => DStream end.
 
 (* what the destination holds when the aggregator starts writing, [old] = what was there before *)
 Definition opened (d : dest) (old : list N) : list N :=
@@ -46,3 +48,17 @@ Definition this_run (d : dest) (old observed : list N) : option (list N) :=
 (* the phout aggregator's encoder: handle() = appendPhout + LF into the bufio buffer *)
 Definition phout_enc (withid : bool) (s : psample) : option (list N) :=
   match render_phout withid s with Ok l => Some (l ++ [LF]) | Panic => None end.
+
+(* ---- a destination that fails ----
+   It accepts [n] bytes and then fails every write (disk full, closed pipe). The writers in front of
+   it (bufio.Writer, the jsoniter stream) hand their bytes over in order and keep the first error, so
+   the destination holds the first n bytes of everything that was written through. *)
+Definition failing (n : nat) (written : list N) : list N := firstn n written.
+
+(* specification side: [p] is a prefix of [l] *)
+Fixpoint prefix_b (p l : list N) : bool :=
+  match p, l with
+  | [], _ => true
+  | _ :: _, [] => false
+  | x :: p', y :: l' => (x =? y) && prefix_b p' l'
+  end.
